@@ -55,7 +55,8 @@ FILTER = {"a": (">=", 12)}  # prunes file 1, keeps two rows of file 2 and file 3
 COLUMNS = ["s"]
 APIS = ["scan", "scan_parallel2", "scan_filter", "scan_columns", "scan_batches_1", "scan_batches_10000",
         "iter_records", "row_count"]
-CONFIGS: List[Tuple[str, Optional[bool]]] = [(a, v) for a in APIS if a != "row_count" for v in (True, False)] + [
+# verify: True / False are passed explicitly; "default" omits the argument (verification is ON by default)
+CONFIGS: List[Tuple[str, Any]] = [(a, v) for a in APIS if a != "row_count" for v in (True, False, "default")] + [
     ("row_count", None)]
 DAMAGE_NAME = {"deleted": "deleted", "truncate": "truncated", "garbage": "garbage", "region": "region_overwrite",
                "flip": "byte_flip", "sibling": "sibling_swap", "fault": "fault"}
@@ -70,20 +71,21 @@ def call_api(t: Any, api: str, verify: Optional[bool]) -> Tuple[str, Any]:
     """Run one read API to completion.  ('rows', canonical sorted rows) | ('count', n)."""
     if api == "row_count":
         return ("count", int(t.row_count()))
+    kw: Dict[str, Any] = {} if verify == "default" else {"verify_checksums": verify}
     if api == "scan":
-        rows = t.scan(verify_checksums=verify)
+        rows = t.scan(**kw)
     elif api == "scan_parallel2":
-        rows = t.scan(parallel=2, verify_checksums=verify)
+        rows = t.scan(parallel=2, **kw)
     elif api == "scan_filter":
-        rows = t.scan(filter=dict(FILTER), verify_checksums=verify)
+        rows = t.scan(filter=dict(FILTER), **kw)
     elif api == "scan_columns":
-        rows = t.scan(columns=list(COLUMNS), verify_checksums=verify)
+        rows = t.scan(columns=list(COLUMNS), **kw)
     elif api in ("scan_batches_1", "scan_batches_10000"):
         rows = []
-        for b in t.scan_batches(batch_size=int(api.rsplit("_", 1)[1]), verify_checksums=verify):
+        for b in t.scan_batches(batch_size=int(api.rsplit("_", 1)[1]), **kw):
             rows.extend(b)
     elif api == "iter_records":
-        rows = [r for r in t.iter_records(verify_checksums=verify)]
+        rows = [r for r in t.iter_records(**kw)]
     else:
         raise HarnessError(f"unknown api {api}")
     return ("rows", tuple(reader.canon_rows(rows)))
@@ -450,7 +452,7 @@ class Judge:
         rel, cls = ctx.files[idx]
         want = ctx.want[api]
         rep.add("evaluations")
-        must_detect = cls == "data" and verify is True  # checksum on: ANY byte change must raise
+        must_detect = cls == "data" and verify in (True, "default")  # checksum on (explicitly or by default): ANY byte change must raise
         in_scope = st in ("missing", "unparseable") or must_detect or st == "same_content"
         detail = {"backend": ctx.backend, "file_index": idx, "file": rel, "file_class": cls, "spec": list(spec),
                   "independent_parser": st, "api": api, "verify": verify, "file_read_by_call": touched}
@@ -480,6 +482,55 @@ class Judge:
             if len(rep.samples) < 5 and spec[0] in ("truncate", "sibling") and api == "scan" and verify:
                 rep.sample({"out_of_scope_example": detail, "observed": _brief(out[1])})
         rep.nontrivial((ctx.backend, cls, dname, st, api, verify, oc))
+
+    def outage_cases(self) -> None:
+        """Several requests of one read fail together (expired credentials, a revoked policy, an outage): every
+        request of the named kinds is refused with a permanent / transient code for the whole call."""
+        from botocore.exceptions import ClientError
+
+        ctx, rep = self.ctx, self.rep
+        fake = ctx.world.s3
+        scen = [("all_requests", None), ("head_and_list", ("HEAD", "LIST")), ("head_only", ("HEAD",)),
+                ("list_only", ("LIST",)), ("get_only", ("GET",))]
+        codes = [("AccessDenied", 403), ("403", 403), ("SlowDown", 503)]
+        for sname, kinds in scen:
+            for code, status in codes:
+                for api, verify in CONFIGS:
+                    n = [0]
+
+                    def gate(req: Any, kinds: Any = kinds, code: str = code, status: int = status) -> None:
+                        if kinds is None or req.op in kinds:
+                            n[0] += 1
+                            raise ClientError({"Error": {"Code": code, "Message": "refused"},
+                                               "ResponseMetadata": {"HTTPStatusCode": status}}, req.op)
+
+                    ENV.restore(ctx.env0) if hasattr(ctx, "env0") else None
+                    fake.gates.append(gate)
+                    try:
+                        try:
+                            out = ("ok", call_api(ctx.t, api, verify))
+                        except HarnessError:
+                            raise
+                        except Exception as e:  # noqa
+                            out = ("raise", type(e).__name__)
+                    finally:
+                        fake.gates.remove(gate)
+                    rep.add("evaluations")
+                    rep.add("outage_cases")
+                    if n[0] == 0:
+                        rep.add("outage_scenarios_not_touching_the_call")
+                        continue
+                    rep.add("distinct_nontrivial")
+                    rep.nontrivial((ctx.backend, "outage", sname, code, api, verify, out[0]))
+                    if out[0] == "raise":
+                        rep.add("raised")
+                    elif out[1] != ctx.want[api]:
+                        prob = shape(out[1], ctx.want[api], None)
+                        self.fail("any", f"outage_{sname}", api, verify, prob,
+                                  {"backend": ctx.backend, "scenario": sname, "code": code, "requests_refused": n[0],
+                                   "expected": _brief(ctx.want[api]), "observed": _brief(out[1])})
+                    else:
+                        rep.add("outage_answered_exactly_without_the_refused_requests")
 
     def fault_cases(self, api: str, verify: Optional[bool]) -> None:
         ctx, rep = self.ctx, self.rep
@@ -545,6 +596,8 @@ def worker(payload: Tuple[Any, ...]) -> Dict[str, Any]:
                 rep.sample({"backend": backend, "file": rel, "file_class": cls, "bytes": len(ctx.orig[rel]),
                             "damages": len(specs), "structure": structure(cls, ctx.orig[rel])["cuts"][:12],
                             "read_apis": len(CONFIGS)})
+        elif kind == "outage":
+            j.outage_cases()
         else:
             for api, verify in payload[4]:
                 j.fault_cases(api, verify)
@@ -578,6 +631,7 @@ def payloads(tier: str, seed: int) -> List[Tuple[Any, ...]]:
         step = 5 if tier == "quick" else 3
         for i in range(0, len(cfgs), step):
             out.append(("faults", tier, seed, b, cfgs[i:i + step]))
+    out.append(("outage", tier, seed, "s3"))
     if seed:
         k = seed % len(out)
         out = out[k:] + out[:k]  # the seed only rotates the enumeration order
